@@ -46,6 +46,8 @@ where
     // Prevent from corner case 1
     let mut inter = inter;
     if inter.x == se_l.point.x && inter.y < se_l.point.y {
+        #[cfg(geo_booleanop_verif)]
+        super::verif::on_bump();
         inter.x = inter.x.nextafter(true);
     }
 
